@@ -177,6 +177,12 @@ def seq_corpus(tier):
                             conn[F["rst"]] = "rst_net"
                         bbs.append([f"r{j}", ftype, F["ins"], F["outs"], conn])
                     yield {"name": "seq", "nodes": nodes, "bbs": bbs}, ftype, [f"r{j}" for j in range(nf)]
+                    if nf == 2 and not any(f"q{nf - 1}" in fi for _n, _t, fi, _o in nodes) and f"q{nf - 1}" not in [names[x] for x in dsel]:
+                        # the last flop's Q pin left unconnected (its q net is used nowhere)
+                        bbs2 = [list(x) for x in bbs]
+                        bbs2[-1] = bbs2[-1][:4] + [{k: v for k, v in bbs2[-1][4].items() if k != F["q"]}]
+                        nodes2 = [x for x in nodes if x[0] != f"q{nf - 1}"]
+                        yield {"name": "seq", "nodes": nodes2, "bbs": bbs2}, ftype, [f"r{j}" for j in range(nf)]
 
 
 def seq_options(ftype, flops, rich):
